@@ -2,6 +2,7 @@
   Driver domain `cr`: crash enumeration of the OCI layout (C10).
     cr seq op=<kind> refs=<0|1> seq=<normalised mutating calls of the victim op>
     cr after op=..       the un-injected run left a valid layout
+    cr beforetags / aftertags op=..   the name mapping on disk is the one the operations define
     cr kill op=.. point=i/n at=<call>     verdict of the validator after the kill
 -/
 import OrasModel.Model.CrashFS
@@ -56,6 +57,8 @@ def step (toks : List String) : Option (String × String) :=
       let seq := if s == "-" then [] else s.splitOn ","
       some (if matchesShape kind refs seq then "ok" else "SHAPE-MISMATCH(save=" ++ ",".intercalate save ++ ")", "*")
   | "after" :: _ => some ("ok", "ok")
+  | "beforetags" :: _ => some ("ok", "ok")  -- the names the preparation set are the names on disk
+  | "aftertags" :: _ => some ("ok", "ok")   -- afterwards: those names with the operation's own effect applied
   | "durable" :: _ => some ("ok", "ok")    -- the live view at return = the view after reopening
   | "kill" :: _ => some ("ok", "ok")
   | _ => none
